@@ -401,6 +401,71 @@ pub fn run(ctx: &Ctx) -> i32 {
         }
         let _ = std::fs::remove_dir_all(&root);
     }
+    // (d) the same question asked of the program's output: the `file:line` entries a report lists for a pattern
+    // are the same whichever other patterns are selected with it, in whatever order
+    {
+        let pool = pool();
+        let table = crate::report::section_table();
+        let nt = ctx.tier.pick(20u64, 1200u64);
+        run_workload(ctx, &mut acc, "report-level-co-selection", nt, |k, rng, acc| {
+            let ents = gen_tree_eligible(rng, &pool, 0, 5, 2);
+            let base = scratch_dir("c15r");
+            std::fs::create_dir_all(format!("{}/contracts", base)).unwrap();
+            build(&format!("{}/contracts", base), &ents);
+            let run = |args: &[&str]| -> Option<Vec<(String, String, String)>> {
+                let _ = std::fs::remove_file(format!("{}/solstat_report.md", base));
+                match run_solstat(&base, args) {
+                    Ok(o) if o.code == Some(0) => parse_report_triples(&String::from_utf8_lossy(&o.report.unwrap_or_default()), &table).ok(),
+                    _ => None,
+                }
+            };
+            match run(&[]) {
+                None => acc.cov("report-level:full-run-failed-or-unparseable"),
+                Some(full) => {
+                    for r in 0..3 {
+                        let mut sel: Vec<Vec<String>> = vec![];
+                        for cat in ["optimizations", "vulnerabilities", "qa"] {
+                            let mut names: Vec<String> = crate::mon::c11::patterns_of(cat).iter().map(|s| s.to_string()).collect();
+                            rng.shuffle(&mut names);
+                            let keep = match rng.below(4) {
+                                0 => 1.min(names.len()),
+                                1 => names.len(),
+                                _ => rng.range(0, names.len()),
+                            };
+                            names.truncate(keep);
+                            sel.push(names);
+                        }
+                        std::fs::write(format!("{}/cfg.toml", base), toml_text(None, &sel[0], &sel[1], &sel[2])).unwrap();
+                        let chosen: BTreeSet<&String> = sel.iter().flatten().collect();
+                        let want: Vec<(String, String, String)> = full.iter().filter(|t| chosen.contains(&t.0)).cloned().collect();
+                        match run(&["--toml", "cfg.toml"]) {
+                            None => acc.cov("report-level:subset-run-failed-or-unparseable"),
+                            Some(got) => {
+                                acc.eval();
+                                acc.cov("report-level:compared");
+                                if !want.is_empty() {
+                                    acc.nontrivial_h(hash_str(&format!("{:?}|{}", sel, to_json(&ents))));
+                                }
+                                if got != want {
+                                    let lost: Vec<_> = want.iter().filter(|t| !got.contains(t)).take(5).collect();
+                                    let extra: Vec<_> = got.iter().filter(|t| !want.contains(t)).take(5).collect();
+                                    let sig = if !extra.is_empty() { "report-level:entries-appear-when-fewer-patterns-are-selected" } else { "report-level:entries-vanish-when-fewer-patterns-are-selected" };
+                                    acc.violation(sig, json!({"tree": to_json(&ents), "selected": sel, "run": r, "in_full_report_only": lost, "in_subset_report_only": extra}));
+                                }
+                            }
+                        }
+                    }
+                }
+            }
+            let _ = std::fs::remove_dir_all(&base);
+            if k == 0 {
+                acc.sample(json!({"report_level_tree": to_json(&ents)}));
+            }
+        });
+        if ctx.replay.is_none() && acc.cov_get("report-level:compared") < 30 {
+            acc.inconclusive(format!("report-level workload compared only {} runs", acc.cov_get("report-level:compared")));
+        }
+    }
     if ctx.replay.is_none() && std::env::var("VMON_SKIP_SANITIZERS").is_err() {
         sanitizers(ctx, &mut acc);
     }
